@@ -45,6 +45,9 @@ func (sh *Shared) bindDecls(cs *ContractSet) error {
 			sh.elemsNonNil[key] = true
 		case "mapvals_nonnil":
 			sh.mapValsNonNil[key] = true
+		case "purefunc":
+			// the function value stored in this field (injected logger, clock ...) has no effect on emulator state
+			sh.pureFuncField[key] = true
 		default:
 			return fmt.Errorf("typeinv: unknown kind %s", ti.Kind)
 		}
